@@ -129,19 +129,24 @@ theorem findAttr_scope (k : Bytes) (b : Bool) (h : asc "itemscope" ≠ k) :
     findAttr k (if b then [(⟨[], asc "itemscope", []⟩ : Attr)] else []) = none := by
   cases b <;> simp [findAttr, h]
 
-macro "find_attr" : tactic => `(tactic|
+macro "find_attr" f:term : tactic => `(tactic|
   (unfold attrsOf
    simp only [findAttr_append, findAttr_opt]
    rw [findAttr_scope _ _ (by decide)]
    simp (config := { decide := true }) only [↓reduceIte]
-   first | rfl | (split <;> rfl)))
+   generalize $f = o
+   cases o <;> rfl))
 
-theorem find_content (a : Attrs) : findAttr (asc "content") (attrsOf a) = a.content := by find_attr
-theorem find_href (a : Attrs) : findAttr (asc "href") (attrsOf a) = a.href := by find_attr
-theorem find_src (a : Attrs) : findAttr (asc "src") (attrsOf a) = a.src := by find_attr
-theorem find_data (a : Attrs) : findAttr (asc "data") (attrsOf a) = a.data := by find_attr
-theorem find_value (a : Attrs) : findAttr (asc "value") (attrsOf a) = a.value := by find_attr
-theorem find_datetime (a : Attrs) : findAttr (asc "datetime") (attrsOf a) = a.datetime := by find_attr
+theorem find_content (a : Attrs) : findAttr (asc "content") (attrsOf a) = a.content := by find_attr a.content
+theorem find_href (a : Attrs) : findAttr (asc "href") (attrsOf a) = a.href := by find_attr a.href
+theorem find_src (a : Attrs) : findAttr (asc "src") (attrsOf a) = a.src := by find_attr a.src
+theorem find_data (a : Attrs) : findAttr (asc "data") (attrsOf a) = a.data := by find_attr a.data
+theorem find_value (a : Attrs) : findAttr (asc "value") (attrsOf a) = a.value := by find_attr a.value
+theorem find_datetime (a : Attrs) : findAttr (asc "datetime") (attrsOf a) = a.datetime := by
+  unfold attrsOf
+  simp only [findAttr_append, findAttr_opt]
+  rw [findAttr_scope _ _ (by decide)]
+  simp (config := { decide := true }) only [↓reduceIte]
 
 def kindOfTag : Tag → ValueKind
   | .metaEl => .content
@@ -179,5 +184,453 @@ theorem textL_ofSpec : ∀ ks : List Tree, textContentL (ofSpecL ks) = textOfLis
     simp only [ofSpecL, textContentL, textOfList]
     rw [text_ofSpec k, textL_ofSpec ks]
 end
+
+/-! ## property names: Go's `knownItemprops` set is the fragment's `uniq` -/
+
+theorem fields_ne (v : Str) : ∀ tok ∈ Spec.Html.fields v, tok ≠ [] := by
+  rw [← typeTokens_eq_fields]; exact typeTokens_ne v
+
+theorem propNamesGo_uniq (base : Str) (tm mm : List (Bytes → Option (Term Nat))) (types : List Str)
+    (toks known : List Str) (hne : ∀ t ∈ toks, t ≠ []) :
+    propNamesGo (specEnv base tm mm) types toks known =
+      ((uniq toks).filter (fun t => !known.contains t)).map (predicate types) := by
+  induction toks generalizing known with
+  | nil => simp [propNamesGo, uniq]
+  | cons tok rest ih =>
+    have h0 : tok.isEmpty = false := by
+      have := hne tok (by simp)
+      cases tok <;> simp_all
+    have ih' := fun k => ih k (fun t ht => hne t (by simp [ht]))
+    unfold propNamesGo
+    simp only [h0, Bool.false_eq_true, ↓reduceIte, uniq, List.filter_cons]
+    by_cases hk : known.contains tok = true
+    · simp only [hk, ↓reduceIte, Bool.not_true, Bool.false_eq_true]
+      rw [ih', List.filter_filter]
+      congr 1
+      apply List.filter_congr
+      intro x _
+      by_cases hx : known.contains x = true
+      · have hm : x ∈ known := by simpa using hx
+        simp [hx, hm]
+      · have hx' : known.contains x = false := by simpa using hx
+        have : x ≠ tok := by intro e; subst e; rw [hk] at hx'; cases hx'
+        simp [hx', this]
+    · have hk' : known.contains tok = false := by simpa using hk
+      simp only [hk', Bool.false_eq_true, ↓reduceIte, Bool.not_false, specEnv, List.map_cons]
+      congr 1
+      have := ih' (tok :: known)
+      simp only [specEnv] at this
+      rw [this, List.filter_filter]
+      congr 1
+      apply List.filter_congr
+      intro x _
+      simp only [List.contains_cons, Bool.not_or, bne]
+      rw [Bool.and_comm]
+
+theorem propNames_names (base : Str) (tm mm : List (Bytes → Option (Term Nat))) (types : List Str) (v : Str)
+    (htok : Mdd.fields (trimSpace v) = Spec.Html.fields v) :
+    propNames (specEnv base tm mm) types v = (uniq (Spec.Html.fields v)).map (predicate types) := by
+  unfold propNames
+  rw [htok, propNamesGo_uniq base tm mm types _ [] (fields_ne v)]
+  congr 1
+  apply List.filter_eq_self.mpr
+  intro x _
+  simp
+
+theorem emitAll_out (s : Subj) (o : Term Nat) (ps : List Bytes) (st : St) :
+    emitAll s o ps st = { st with out := (ps.map (fun p => (⟨s.term, p, o⟩ : Stmt))).reverse ++ st.out } := by
+  induction ps generalizing st with
+  | nil => rfl
+  | cons p ps ih => simp [emitAll, ih, St.emit]
+
+/-! ## element-specific values -/
+
+theorem firstMap_decline (v : Bytes) (fs : List (Bytes → Option (Term Nat))) (h : ∀ f ∈ fs, f v = none) :
+    firstMap v fs = Mdd.strLit v := by
+  induction fs with
+  | nil => rfl
+  | cons f fs ih =>
+    unfold firstMap
+    rw [h f (by simp)]
+    exact ih (fun g hg => h g (by simp [hg]))
+
+theorem laxOrText_spec (base : Str) (tm mm : List (Bytes → Option (Term Nat))) (n : Node) :
+    laxOrText (specEnv base tm mm) n = (Mdd.strLit (textContent n), false) := by
+  simp [laxOrText, specEnv]
+
+theorem itemValue_spec (base : Str) (tm mm : List (Bytes → Option (Term Nat))) (σ : Path → Nat) (id : Nat) (tag : Tag)
+    (a : Attrs) (ks : List Tree) (kids' : List Node) (here : Path)
+    (hs : a.itemscope = false) (htext : textContentL kids' = textOfList ks)
+    (hmeter : tag = .meter → ∀ v, a.value = some v → ∀ f ∈ mm, f v = none)
+    (htime : tag = .time → ∀ v, a.datetime = some v → ∀ f ∈ tm, f v = none) :
+    itemValue (specEnv base tm mm) (.mk id 3 [] (atomOf tag) [] (attrsOf a) kids') =
+      (Term.map σ (value base here (.elem tag a ks)), false) := by
+  have htxt : textContent (.mk id 3 [] (atomOf tag) [] (attrsOf a) kids') = textOfList ks := by
+    simp [textContent, htext]
+  have hstr : ∀ o : Option Str, (match o with
+      | some v => (Mdd.strLit v, false)
+      | none => (Mdd.strLit [], false)) = (Term.map σ (Spec.Microdata.strLit (o.getD [])), false) := by
+    intro o; cases o <;> rfl
+  have hurl : ∀ o : Option Str, (match o with
+      | some v => (iriValue (specEnv base tm mm) v, false)
+      | none => (Mdd.strLit [], false)) =
+      (Term.map σ (match o with | some u => .iri (resolveUrl base u) | none => Spec.Microdata.strLit []), false) := by
+    intro o; cases o
+    · rfl
+    · simp [iriValue_spec, Term.map]
+  have hmet : ∀ o : Option Str, (∀ v, o = some v → ∀ f ∈ mm, f v = none) → (match o with
+      | some v => (firstMap v mm, false)
+      | none => (Mdd.strLit [], false)) = (Term.map σ (Spec.Microdata.strLit (o.getD [])), false) := by
+    intro o h; cases o
+    · rfl
+    · simp only [firstMap_decline _ mm (h _ rfl)]; rfl
+  have htim : ∀ (o : Option Str) (txt : Str), (∀ v, o = some v → ∀ f ∈ tm, f v = none) → (match o with
+      | some v => (firstMap v tm, false)
+      | none => (Mdd.strLit txt, false)) =
+      (Term.map σ (match o with | some v => Spec.Microdata.strLit v | none => Spec.Microdata.strLit txt), false) := by
+    intro o txt h; cases o
+    · rfl
+    · simp only [firstMap_decline _ tm (h _ rfl)]; rfl
+  unfold itemValue
+  simp only [Node.atom, Node.attrs, kind_atomOf, find_content, find_src, find_href, find_data, find_value, find_datetime,
+    laxOrText_spec, htxt]
+  cases tag <;> simp only [kindOfTag, value, hs, Bool.false_eq_true, ↓reduceIte, hstr, hurl]
+  all_goals first
+    | rfl
+    | exact hstr _
+    | exact hurl _
+    | exact hmet _ (hmeter rfl)
+    | exact htim _ _ (htime rfl)
+
+/-! ## the statements an element gives the enclosing item -/
+
+/-- the decoder's evaluation context corresponds to the enclosing item of the streaming semantics -/
+def CtxRel (σ : Path → Nat) (ctx : Ctx) (cur : Cur) : Prop :=
+  match cur, ctx.subj with
+  | none, none => True
+  | some c, some s => Term.map σ c.1 = s.term ∧ ctx.types = c.2
+  | _, _ => False
+
+theorem fields_nil : Spec.Html.fields [] = [] := by simp [Spec.Html.fields, fieldsAux]
+
+theorem link_spec (base : Str) (tm mm : List (Bytes → Option (Term Nat))) (σ : Path → Nat) (ctx : Ctx) (cur : Cur)
+    (here : Path) (tag : Tag) (a : Attrs) (ks : List Tree) (o : Term Nat)
+    (ho : o = Term.map σ (value base here (.elem tag a ks)))
+    (htok : ∀ v, a.itemprop = some v → Mdd.fields (trimSpace v) = Spec.Html.fields v)
+    (hrel : CtxRel σ ctx cur) (st : St) :
+    (if a.itemprop.getD [] ≠ [] then
+      (match ctx.subj with
+       | none => st
+       | some cs => emitAll cs o (propNames (specEnv base tm mm) ctx.types (a.itemprop.getD [])) st)
+     else st) =
+    { st with out := ((linkOf base cur here (.elem tag a ks)).map (Triple.map σ)).reverse ++ st.out } := by
+  cases cur with
+  | none =>
+    cases hs : ctx.subj with
+    | none => simp only [linkOf]; split <;> rfl
+    | some cs => simp [CtxRel, hs] at hrel
+  | some c =>
+    cases hs : ctx.subj with
+    | none => simp [CtxRel, hs] at hrel
+    | some cs =>
+      simp only [CtxRel, hs] at hrel
+      obtain ⟨h1, h2⟩ := hrel
+      cases hp : a.itemprop with
+      | none => simp [linkOf, names, hp]
+      | some v =>
+        by_cases hv : v = []
+        · subst hv; simp [linkOf, names, hp, fields_nil, uniq]
+        · simp only [Option.getD_some, ne_eq, hv, not_false_eq_true, ↓reduceIte, linkOf, names, hp]
+          rw [propNames_names base tm mm ctx.types v (htok v hp), emitAll_out, h2]
+          congr 2
+          simp only [List.map_map]
+          congr 1
+          apply List.map_congr_left
+          intro nm _
+          simp [Triple.map, h1, ho]
+
+theorem propElem_spec (base : Str) (tm mm : List (Bytes → Option (Term Nat))) (σ : Path → Nat) (ctx : Ctx) (cur : Cur)
+    (here : Path) (id : Nat) (tag : Tag) (a : Attrs) (ks : List Tree) (kids' : List Node)
+    (hs : a.itemscope = false) (htext : textContentL kids' = textOfList ks)
+    (hmeter : tag = .meter → ∀ v, a.value = some v → ∀ f ∈ mm, f v = none)
+    (htime : tag = .time → ∀ v, a.datetime = some v → ∀ f ∈ tm, f v = none)
+    (htok : ∀ v, a.itemprop = some v → Mdd.fields (trimSpace v) = Spec.Html.fields v)
+    (hrel : CtxRel σ ctx cur) (a' : ItemAttrs) (ha' : a'.itemprop = a.itemprop.getD []) (st : St) :
+    propElem (specEnv base tm mm) ctx (.mk id 3 [] (atomOf tag) [] (attrsOf a) kids') a' st =
+      { st with out := ((linkOf base cur here (.elem tag a ks)).map (Triple.map σ)).reverse ++ st.out } := by
+  unfold propElem
+  rw [itemValue_spec base tm mm σ id tag a ks kids' here hs htext hmeter htime, ha']
+  simp only [Bool.false_eq_true, ↓reduceIte]
+  exact link_spec base tm mm σ ctx cur here tag a ks _ rfl htok hrel st
+
+/-! ## an element with itemscope -/
+
+theorem itemSubject_spec (base : Str) (tm mm : List (Bytes → Option (Term Nat))) (a : Attrs) (a' : ItemAttrs)
+    (ha' : a'.itemid = a.itemid.getD []) (hid : ∀ v, a.itemid = some v → trimSpace v = trimWs v) (st0 : St) :
+    itemSubject (specEnv base tm mm) a' none st0 =
+      ((subjN base a st0.nextBn).1, { st0 with nextBn := (subjN base a st0.nextBn).2 }) := by
+  unfold itemSubject subjN
+  rw [ha']
+  cases hv : a.itemid with
+  | none => simp
+  | some v =>
+    by_cases hv0 : v = []
+    · simp [hv0]
+    · have := hid v hv
+      simp [hv0, specEnv, resolveUrl]
+      by_cases hb : base = [] <;> simp [hb]
+
+theorem types_spec (base : Str) (tm mm : List (Bytes → Option (Term Nat))) (a : Attrs) (next : Subj) (s0 : St) :
+    (if a.itemtype.getD [] ≠ [] then
+      emitTypes (specEnv base tm mm) next (typeTokens (a.itemtype.getD [])) s0 else ([], s0)) =
+    (typesOf a, { s0 with out := ((typesOf a).map (fun ty => (⟨next.term, Mdd.rdfType, .iri ty⟩ : Stmt))).reverse ++ s0.out }) := by
+  cases hv : a.itemtype with
+  | none => simp [typesOf, hv]
+  | some v =>
+    by_cases hv0 : v = []
+    · subst hv0; simp [typesOf, hv, Spec.Html.fields, fieldsAux]
+    · simp only [Option.getD_some, ne_eq, hv0, not_false_eq_true, ↓reduceIte]
+      rw [emitTypes_spec base tm mm _ _ (typeTokens_ne v)]
+      simp [typesOf, hv, typeTokens_eq_fields]
+
+theorem subjN_snd (base : Str) (a : Attrs) (cnt : Nat) (hs : a.itemscope = true) :
+    (subjN base a cnt).2 = cnt + selfBn a := by
+  unfold subjN selfBn isBnItem
+  cases hv : a.itemid with
+  | none => simp [hs]
+  | some v => by_cases h0 : v = [] <;> simp [hs, h0]
+
+theorem visitItem_spec (base : Str) (tm mm : List (Bytes → Option (Term Nat))) (σ : Path → Nat)
+    (w : Ctx → Node → St → St) (doc : Node) (ctx : Ctx) (cur : Cur) (here : Path) (m : Nat) (tag : Tag) (a : Attrs)
+    (ks : List Tree) (kids' : List Node) (hs : a.itemscope = true) (href : a.itemref = none)
+    (hid : ∀ v, a.itemid = some v → trimSpace v = trimWs v)
+    (htok : ∀ v, a.itemprop = some v → Mdd.fields (trimSpace v) = Spec.Html.fields v)
+    (hrel : CtxRel σ ctx cur) (st0 : St) (hσ : σ here = st0.nextBn) (hun : lookupR st0.resolved m = none) :
+    visitItem (specEnv base tm mm) w doc ctx (.mk m 3 [] (atomOf tag) [] (attrsOf a) kids')
+        { itemid := a.itemid.getD [], itemprop := a.itemprop.getD [], itemref := a.itemref.getD [],
+          itemscope := a.itemscope, itemtype := a.itemtype.getD [] } st0 =
+      walkKidsWith w { ctx with subj := some (subjN base a st0.nextBn).1, types := typesOf a } kids'
+        { st0 with resolved := (m, (subjN base a st0.nextBn).1) :: st0.resolved, nextBn := (subjN base a st0.nextBn).2,
+                   expansions := st0.expansions + 1,
+                   out := ((typeStmts base a here).map (Triple.map σ)).reverse ++
+                          (((linkOf base cur here (.elem tag a ks)).map (Triple.map σ)).reverse ++ st0.out) } := by
+  have hnext : Term.map σ (subject base a here) = (subjN base a st0.nextBn).1.term :=
+    subject_map base σ a here st0.nextBn hid hσ
+  have hval : value base here (.elem tag a ks) = subject base a here := by simp [value, hs]
+  have hl' : (List.find? (fun e => e.1 == m) st0.resolved) = none := by
+    unfold lookupR at hun
+    split at hun
+    · simp at hun
+    · assumption
+  unfold visitItem
+  simp only [St.lookup, Node.id, hl']
+  rw [itemSubject_spec base tm mm a _ rfl hid st0]
+  have hlink := link_spec base tm mm σ ctx cur here tag a ks (subjN base a st0.nextBn).1.term (by rw [hval, hnext]) htok hrel
+    { st0 with nextBn := (subjN base a st0.nextBn).2 }
+  have hL : linkItem (specEnv base tm mm) ctx
+      { itemid := a.itemid.getD [], itemprop := a.itemprop.getD [], itemref := a.itemref.getD [],
+        itemscope := a.itemscope, itemtype := a.itemtype.getD [] } (subjN base a st0.nextBn).1
+      { st0 with nextBn := (subjN base a st0.nextBn).2 } = _ := hlink
+  rw [hL]
+  unfold expandItem
+  simp only [href, Option.getD_none, ne_eq, not_true_eq_false, ↓reduceIte, Node.kids, Node.id]
+  have ht := types_spec base tm mm a (subjN base a st0.nextBn).1
+  simp only [ne_eq] at ht
+  rw [ht]
+  simp only
+  congr 1
+  simp only [typeStmts, List.map_map]
+  congr 3
+  apply List.map_congr_left
+  intro ty _
+  simp only [Function.comp, Triple.map, hnext]
+  rfl
+
+/-! ## the walk over an embedded tree -/
+
+mutual
+/-- Go's tokenisation (Unicode spaces) of every itemprop / itemid agrees with HTML's (ASCII spaces) -/
+def tokOk : Tree → Bool
+  | .text _ => true
+  | .elem _ a ks =>
+    (match a.itemprop with | some v => Mdd.fields (trimSpace v) == Spec.Html.fields v | none => true) &&
+    (match a.itemid with | some v => trimSpace v == trimWs v | none => true) && tokOkKids ks
+def tokOkKids : List Tree → Bool
+  | [] => true
+  | k :: ks => tokOk k && tokOkKids ks
+end
+
+/-- the xsdobject mappers leave plain words alone (what `inFragment` relies on) -/
+def Decline (tm mm : List (Bytes → Option (Term Nat))) : Prop :=
+  ∀ f ∈ tm ++ mm, ∀ v, plainWord v = true → f v = none
+
+/-- what a (partial) walk did: statements emitted, blank nodes made, hooks, identities resolved -/
+structure Res (σ : Path → Nat) (stmts : List Tr) (n m' : Nat) (st r : St) : Prop where
+  out : r.out = (stmts.map (Triple.map σ)).reverse ++ st.out
+  bn : r.nextBn = st.nextBn + n
+  hooks : r.hooks = st.hooks
+  lt : ∀ e ∈ r.resolved, e.1 < m'
+
+theorem relabel_next_ge (m : Nat) (n : Node) : m < (relabelFrom m n).2 := by
+  rw [(relabel_ids m n).2, subnodes_eq]; simp
+
+theorem relabelL_next_ge (m : Nat) (ks : List Node) : m ≤ (relabelL m ks).2 := by
+  rw [(relabelL_ids m ks).2]; omega
+
+mutual
+theorem walk_tree (base : Str) (tm mm : List (Bytes → Option (Term Nat))) (hdec : Decline tm mm) (doc : Node)
+    (σ : Path → Nat) : ∀ (t : Tree) (f : Nat) (ctx : Ctx) (cur : Cur) (here : Path) (m : Nat) (st : St),
+    height (ofSpec t) ≤ f → noRef t = true → tokOk t = true → inFragment t = true →
+    CtxRel σ ctx cur → SOk σ here st.nextBn t → (∀ e ∈ st.resolved, e.1 < m) →
+    Res σ (swP base cur here t) (bnCount t) (relabelFrom m (ofSpec t)).2 st
+      (walk (specEnv base tm mm) doc f ctx (relabelFrom m (ofSpec t)).1 st)
+  | .text s, f, ctx, cur, here, m, st, hf, _, _, _, _, _, hlt => by
+    obtain ⟨f', rfl⟩ : ∃ f', f = f' + 1 := ⟨f - 1, by simp [ofSpec, height, heightL] at hf; omega⟩
+    have e0 : scanAttrs [] {} = ({} : ItemAttrs) := rfl
+    simp only [ofSpec, relabelFrom, relabelL, walk_succ, walkStep, Node.ns, Node.attrs, Node.kids, e0, walkKidsWith,
+      List.foldl_nil, propElem, ne_eq, not_true_eq_false, ↓reduceIte, Bool.false_eq_true, swP, bnCount]
+    exact ⟨rfl, rfl, rfl, fun e he => Nat.lt_succ_of_lt (hlt e he)⟩
+  | .elem tag a ks, f, ctx, cur, here, m, st, hf, hnr, htk, hif, hrel, hσ, hlt => by
+    obtain ⟨f', rfl⟩ : ∃ f', f = f' + 1 := ⟨f - 1, by simp [ofSpec, height] at hf; omega⟩
+    have hf' : heightL (ofSpecL ks) ≤ f' := by simp [ofSpec, height] at hf; omega
+    simp only [noRef, Bool.and_eq_true, Option.isNone_iff_eq_none] at hnr
+    simp only [tokOk, Bool.and_eq_true] at htk
+    simp only [inFragment, Bool.and_eq_true] at hif
+    have htokp : ∀ v, a.itemprop = some v → Mdd.fields (trimSpace v) = Spec.Html.fields v := by
+      intro v hv; have := htk.1.1; rw [hv] at this; simpa using this
+    have hid : ∀ v, a.itemid = some v → trimSpace v = trimWs v := by
+      intro v hv; have := htk.1.2; rw [hv] at this; simpa using this
+    have hmeter : tag = .meter → ∀ v, a.value = some v → ∀ f ∈ mm, f v = none := by
+      intro ht v hv g hg
+      subst ht
+      have := hif.1; simp only [hv] at this
+      exact hdec g (List.mem_append_right _ hg) v this
+    have htime : tag = .time → ∀ v, a.datetime = some v → ∀ f ∈ tm, f v = none := by
+      intro ht v hv g hg
+      subst ht
+      have := hif.1; simp only [hv] at this
+      exact hdec g (List.mem_append_left _ hg) v this
+    have htext : textContentL (relabelL (m + 1) (ofSpecL ks)).1 = textOfList ks := by
+      rw [textL_relabel, textL_ofSpec]
+    simp only [ofSpec, relabelFrom, walk_succ, walkStep, Node.ns, Node.attrs, Node.kids, scan_attrsOf,
+      ne_eq, not_true_eq_false, ↓reduceIte, swP, bnCount]
+    by_cases hs : a.itemscope = true
+    · -- an item
+      rw [if_pos hs, if_pos hs]
+      rw [visitItem_spec base tm mm σ (walk (specEnv base tm mm) doc f') doc ctx cur here m tag a ks _ hs hnr.1 hid htokp
+        hrel { st with steps := st.steps + 1 } (sok_here hσ) (lookupR_none_of_lt _ _ hlt)]
+      have hsk := sok_kids hσ
+      have ih := walk_trees base tm mm hdec doc σ ks f'
+        { ctx with subj := some (subjN base a st.nextBn).1, types := typesOf a }
+        (some (subject base a here, typesOf a)) here 0 (m + 1)
+        { st with steps := st.steps + 1, resolved := (m, (subjN base a st.nextBn).1) :: st.resolved,
+                  nextBn := (subjN base a st.nextBn).2, expansions := st.expansions + 1,
+                  out := ((typeStmts base a here).map (Triple.map σ)).reverse ++
+                         (((linkOf base cur here (.elem tag a ks)).map (Triple.map σ)).reverse ++ st.out) }
+        hf' hnr.2 htk.2 hif.2
+        (by simp [CtxRel, subject_map base σ a here st.nextBn hid (sok_here hσ)])
+        (by simp only [subjN_snd base a st.nextBn hs]; exact hsk)
+        (by
+          intro e he
+          simp only [List.mem_cons] at he
+          rcases he with rfl | he
+          · simp
+          · exact Nat.lt_succ_of_lt (hlt e he))
+      refine ⟨?_, ?_, ?_, ih.lt⟩
+      · rw [ih.out]; simp [List.map_append, List.reverse_append, List.append_assoc]
+      · rw [ih.bn]; simp only [subjN_snd base a st.nextBn hs]; omega
+      · rw [ih.hooks]
+    · -- not an item
+      have hs0 : a.itemscope = false := by simpa using hs
+      rw [if_neg hs, if_neg hs]
+      rw [propElem_spec base tm mm σ ctx cur here m tag a ks _ hs0 htext hmeter htime htokp hrel _ rfl]
+      have hsk := sok_kids hσ
+      have hself : selfBn a = 0 := by simp [selfBn, hs0]
+      rw [hself, Nat.add_zero] at hsk
+      have ih := walk_trees base tm mm hdec doc σ ks f' ctx cur here 0 (m + 1)
+        { st with steps := st.steps + 1,
+                  out := ((linkOf base cur here (.elem tag a ks)).map (Triple.map σ)).reverse ++ st.out }
+        hf' hnr.2 htk.2 hif.2 hrel hsk (fun e he => Nat.lt_succ_of_lt (hlt e he))
+      refine ⟨?_, ?_, ?_, ih.lt⟩
+      · rw [ih.out]; simp [List.map_append, List.reverse_append, List.append_assoc]
+      · rw [ih.bn, hself]; simp
+      · rw [ih.hooks]
+theorem walk_trees (base : Str) (tm mm : List (Bytes → Option (Term Nat))) (hdec : Decline tm mm) (doc : Node)
+    (σ : Path → Nat) : ∀ (ks : List Tree) (f : Nat) (ctx : Ctx) (cur : Cur) (here : Path) (i m : Nat) (st : St),
+    heightL (ofSpecL ks) ≤ f → noRefKids ks = true → tokOkKids ks = true → inFragmentKids ks = true →
+    CtxRel σ ctx cur → SOkK σ here i st.nextBn ks → (∀ e ∈ st.resolved, e.1 < m) →
+    Res σ (swPKids base cur here i ks) (bnCountL ks) (relabelL m (ofSpecL ks)).2 st
+      (walkKidsWith (walk (specEnv base tm mm) doc f) ctx (relabelL m (ofSpecL ks)).1 st)
+  | [], f, ctx, cur, here, i, m, st, _, _, _, _, _, _, hlt => by
+    simp only [ofSpecL, relabelL, walkKidsWith, List.foldl_nil, swPKids, bnCountL]
+    exact ⟨rfl, rfl, rfl, hlt⟩
+  | k :: ks, f, ctx, cur, here, i, m, st, hf, hnr, htk, hif, hrel, hσ, hlt => by
+    simp only [noRefKids, Bool.and_eq_true] at hnr
+    simp only [tokOkKids, Bool.and_eq_true] at htk
+    simp only [inFragmentKids, Bool.and_eq_true] at hif
+    simp only [ofSpecL, heightL] at hf
+    have h1 := walk_tree base tm mm hdec doc σ k f ctx cur (here ++ [i]) m st (by omega) hnr.1 htk.1 hif.1 hrel
+      (sokK_head hσ) hlt
+    have h2 := walk_trees base tm mm hdec doc σ ks f ctx cur here (i + 1) (relabelFrom m (ofSpec k)).2
+      (walk (specEnv base tm mm) doc f ctx (relabelFrom m (ofSpec k)).1 st) (by omega) hnr.2 htk.2 hif.2 hrel
+      (by rw [h1.bn]; exact sokK_tail hσ) h1.lt
+    simp only [ofSpecL, relabelL, walkKidsWith, List.foldl_cons, swPKids, bnCountL]
+    unfold walkKidsWith at h2
+    refine ⟨?_, ?_, ?_, h2.lt⟩
+    · rw [h2.out, h1.out]; simp [List.map_append, List.reverse_append, List.append_assoc]
+    · rw [h2.bn, h1.bn]; omega
+    · rw [h2.hooks, h1.hooks]
+end
+
+/-- the fragment of this file: no itemref; Go tokenises names and itemids as HTML does; meter / time values are
+    plain words (`Spec.Microdata.inFragment`) -/
+def NestedFrag (doc : Tree) : Prop := noRef doc = true ∧ tokOk doc = true ∧ inFragment doc = true
+
+/-- on every document of the fragment the model decoder emits exactly the streaming semantics, renamed by `rank` -/
+theorem decode_nested (base : Str) (tm mm : List (Bytes → Option (Term Nat))) (hdec : Decline tm mm) (doc : Tree)
+    (hfrag : NestedFrag doc) :
+    decode (specEnv base tm mm) (ofSpecDoc doc) = .ok ((swP base none [] doc).map (Triple.map (rank doc))) [] := by
+  obtain ⟨hnr, htk, hif⟩ := hfrag
+  have hbad := run_bad_none (specEnv base tm mm) (relabel (ofSpecDoc doc))
+  have hh : height (relabel (ofSpecDoc doc)) = height (ofSpec doc) + 1 := by
+    rw [relabel_height]; simp [ofSpecDoc, height, heightL]
+  obtain ⟨f, hf, hfh⟩ : ∃ f, fuelFor (relabel (ofSpecDoc doc)) = f + 1 ∧ height (ofSpec doc) ≤ f := by
+    refine ⟨fuelFor (relabel (ofSpecDoc doc)) - 1, ?_, ?_⟩
+    · unfold fuelFor
+      have : 1 ≤ ((subnodes (relabel (ofSpecDoc doc))).length + 1) * (height (relabel (ofSpecDoc doc)) + 1) :=
+        Nat.mul_pos (Nat.succ_pos _) (Nat.succ_pos _)
+      omega
+    · unfold fuelFor
+      have : height (relabel (ofSpecDoc doc)) + 1 ≤
+          ((subnodes (relabel (ofSpecDoc doc))).length + 1) * (height (relabel (ofSpecDoc doc)) + 1) :=
+        Nat.le_mul_of_pos_left _ (Nat.succ_pos _)
+      omega
+  generalize hd : relabel (ofSpecDoc doc) = d at hbad hf
+  have hshape : d = .mk 0 2 [] [] [] [] [(relabelFrom 1 (ofSpec doc)).1] := by
+    rw [← hd]; simp [relabel, ofSpecDoc, relabelFrom, relabelL]
+  have hw := walk_tree base tm mm hdec d (rank doc) doc f {} none [] 1 { steps := 1 } hfh hnr htk hif
+    (by simp [CtxRel]) (by intro p; simp) (by intro e he; simp at he)
+  unfold decode finish
+  rw [hd, hbad]
+  simp only
+  unfold run
+  rw [hf]
+  have e0 : scanAttrs [] {} = ({} : ItemAttrs) := rfl
+  have hrun : walk (specEnv base tm mm) d (f + 1) {} d {} =
+      walk (specEnv base tm mm) d f {} (relabelFrom 1 (ofSpec doc)).1 { steps := 1 } := by
+    conv => lhs; arg 5; rw [hshape]
+    simp only [walk_succ, walkStep, Node.ns, Node.attrs, Node.kids, e0, walkKidsWith, List.foldl_cons, List.foldl_nil,
+      propElem, ne_eq, not_true_eq_false, ↓reduceIte, Bool.false_eq_true]
+  rw [hrun, hw.out, hw.hooks]
+  simp
+
+/-- … hence a permutation of the denotation, under a renaming that separates the blank-node items -/
+theorem decode_nested_denote (base : Str) (tm mm : List (Bytes → Option (Term Nat))) (hdec : Decline tm mm) (doc : Tree)
+    (hfrag : NestedFrag doc) :
+    ∃ stmts, decode (specEnv base tm mm) (ofSpecDoc doc) = .ok stmts [] ∧
+      stmts.Perm ((denote base doc).map (Triple.map (rank doc))) ∧
+      ∀ p ∈ bnItems [] doc, ∀ q ∈ bnItems [] doc, rank doc p = rank doc q → p = q :=
+  ⟨_, decode_nested base tm mm hdec doc hfrag, (swP_perm_denote base doc hfrag.1).map _,
+    fun p hp q hq h => rank_inj doc p q hp hq h⟩
 
 end RdfModel.Mdd.Nested
